@@ -12,6 +12,7 @@ import itertools
 from core import enc_str
 from lib_ratio import enc_ints, run_ratio
 import lib_table
+import lib_tablerows
 from lib_table import Bundle
 
 PROPERTY = "C07"
@@ -397,6 +398,29 @@ def table_jobs(ctx):
                     edge_specs.append({"cols": cols, "rows": r, "opts": dict(ov), "avail": w})
     for i in range(0, len(edge_specs), 80):
         jobs.append((40, FLAGS, edge_specs[i:i + 80]))
+    # ---- A3b: EXPANDING tables whose columns carry min_width / no_wrap / width / max_width, at every available width from two below
+    #          the structural minimum of the theorems (natural widths of the unshrinkable columns + 1 per shrinkable one) to past the
+    #          natural width (table_expand_exact_no_wrap / _above_floors; the min_width floor the collapse goes below)
+    kind_specs = []
+    long_a, long_b, short = ("s", "aa aa aa aa aa"), ("s", "bb bbb bb bb bb"), ("s", "cc")
+    for cols in (
+        [{"no_wrap": True}, {}], [{}, {"no_wrap": True}], [{"no_wrap": True}, {"no_wrap": True}], [{"no_wrap": True}, {}, {"max_width": 4}],
+        [{"min_width": 10}, {}], [{}, {"min_width": 10}], [{"min_width": 3}, {}], [{"min_width": 10}, {"min_width": 12}],
+        [{"min_width": 8, "no_wrap": True}, {}], [{"min_width": 6}, {"no_wrap": True}, {}], [{"width": 5}, {"min_width": 9}, {}],
+        [{"min_width": 20}, {}], [{"width": 4}, {"no_wrap": True}],
+    ):
+        cols = [dict({"header": ("s", "h%d" % i), "footer": ("s", ""), "overflow": "fold"}, **c) for i, c in enumerate(cols)]
+        cells = [long_a, long_b, short][:len(cols)]
+        rows = [{"cells": cells, "end_section": False}]
+        for ov in ({"expand": True, "box": None, "padding": (0, 0), "show_header": False}, {"expand": True}, {"expand": True, "box": "ASCII", "padding": (0, 2, 0, 1), "collapse_padding": True},
+                   {"width": 26, "box": "SQUARE"}, {"expand": True, "min_width": 12, "show_edge": False}):
+            s = {"cols": cols, "rows": rows, "opts": dict(ov)}
+            smin = structural_min(s)
+            nat = min(natural_width(s), 44)
+            wsq = sorted(set([smin, smin + 3, max(smin, nat // 2), max(smin, nat - 6), max(smin, nat - 3), max(smin, nat - 1), nat, nat + 2]))
+            kind_specs += [dict(s, avail=w) for w in (range(smin, nat + 3) if not quick else wsq)]
+    for i in range(0, len(kind_specs), 70):
+        jobs.append((48, FLAGS, kind_specs[i:i + 70]))
     # ---- A4: Column objects handed to the constructor (their `_index` is assigned by Table.__init__), fixed widths, collapsing padding
     #         with left > right (where the first column differs from the others); Table.grid; consoles that substitute the box
     #         (legacy_windows / ascii_only / safe_box); cells whose renderables raise
@@ -551,6 +575,8 @@ def run(ctx):
     ctx.flush()
     run_small(ctx)
     run_collapse_keep(ctx)
+    lib_tablerows.run_rows(ctx)
+    lib_tablerows.run_styles(ctx)
     run_tables(ctx)
     ctx.flush()
     ctx.rule = (
@@ -627,6 +653,16 @@ MANIFEST = {
     "re-measure), old_no_columns_asserts, old_flex_negative_asserts - at Flags.repaired; old_ratio_zero_column_too_wide (ratio=0 column one cell too wide, "
     "before fix 75c2776) - at Flags.allRepaired with flexClampZero on.  Flags.repaired repairs the first three defects only "
     "(leading, min_width, raw maximum); Flags.allRepaired repairs all seven flags and is the variant /repo contains now.  "
+    "Deepening round 4: table_expand_exact_general / _above_floors / _no_wrap (exact expansion for ARBITRARY sane columns - no_wrap, fixed width, "
+    "max_width: unconditionally at or above the structural minimum 'natural widths of the unshrinkable columns + 1 per shrinkable one'; min_width "
+    "columns: whenever _collapse_widths leaves every column at or above its min_width + padding floor) and the witness "
+    "expand_min_width_column_overflows (FINDING table-column-min-width-overflow: the collapse ignores min_width, the re-measure puts it back, the "
+    "expanding table is wider than asked although the floors fit); Model/TableRows.lean = Table.add_row statement by statement (padding with None, "
+    "created columns back-filled with Text(''), NotRenderableError raised mid-loop) with add_row_raises_iff, add_row_spec, "
+    "add_rows_in_insertion_order (any sequence of calls: rectangular, Row per call in call order, every argument at its row and column for ever), "
+    "add_row_error_state (the half-updated table a raising call leaves), built_table_rows (a table built by add_row shows header, calls in order, "
+    "footer); styles as symbolic source lists (get_row_style, rowKind, cellStyle, fillStyle, dividerStyle, borderStyle) with row_styles_cycle, "
+    "row_style_without_row_styles, cell_style_spec, row_kind_spec, divider_style_spec, fill_is_cell_prefix.  "
     "Tie: the model's column widths and rendered lines equal `_calculate_column_widths` / `Console.render(table)` character for "
     "character on ~5k (quick; committed evidence/C07.json, seed 2: 4,955 tables rendered and 4,955 measured) / ~50k (thorough) generated tables (0..6 declared columns, 0..8 rows, all table and column options, nested "
     "Panel/Table/Padding cells, wide and zero-width characters, ragged and add_row-created columns, nested folding tables, over-long wide words; rendered WITH varying incoming ConsoleOptions "
@@ -636,8 +672,22 @@ MANIFEST = {
     "another width: the second render must equal a freshly built table's and is what the model and every clause are compared with) with each real cell's oracle "
     "tabulated on real rich for all widths 0..W; `_get_cells` padding rules, `_get_padding_width` and every box row builder compared "
     "exhaustively; the theorems' executable statements evaluated on rich's own output.",
-    "note": "PARTIAL: exact expansion (`table_expand_exact_*`) is proved for free columns (no width/min_width/no_wrap: the statement's "
-    "'no explicit width cap') incl. any ratios; for arbitrary columns the theorem is the bound width_bound_general, not exactness; "
+    "note": "OPEN FINDING (deepening round 4, no `known:` line yet, so ./check C07 prints VIOLATION): table-column-min-width-overflow - "
+    "Table(expand=True, box=None, padding=0, show_header=False) with add_column(min_width=10), add_column(), add_row('aa aa aa aa aa', 'bb bb bb bb bb') "
+    "at width 16 gets widths [10, 8] (18 cells; [10, 6] fits): _collapse_widths knows nothing of min_width, the re-measure puts the floor back "
+    "(direct evaluation expand_exact_min_width_column; Lean witness expand_min_width_column_overflows; no small safe repair - one more collapse pass "
+    "is not enough with two min_width columns, a floor-aware collapse changes the layout of tables that render correctly today).  "
+    "New correspondences: table.add_rows (bounded-exhaustive: 0..3 declared columns x every sequence of <= 2 calls of <= 3 arguments over "
+    "{None, object, not renderable} = 6,724, + 1,500 quick / 30,000 thorough random sequences of up to 6 calls of up to 6 arguments, the "
+    "half-updated state after NotRenderableError included) and table.styles (~210 quick / ~580 thorough tables: the model's symbolic style of "
+    "every character - border, edge, divider incl. whitespace dividers, cell, fill line - folded with real Style.__add__ and compared character "
+    "by character with Console.render(table)); new direct evaluations add_row_raises_iff, add_rows_in_insertion_order, add_row_error_state, "
+    "add_rows_render_order, row_styles_cycle, expand_exact_columns (every expanding table without active ratio at or above the theorems' "
+    "structural minimum whose collapsed widths stay above the min_width floors, floors judged with the REAL _collapse_widths).  Styles: the "
+    "composition (which sources, in which order) is modelled and compared; Style.__add__ itself is C06's; a cell's OWN styles stay inside the oracle.  "
+    "PARTIAL: exact expansion (`table_expand_exact_*`) is proved for free columns (no width/min_width/no_wrap) incl. any ratios, and since round 4 for "
+    "arbitrary columns without active ratio at or above the structural minimum provided no min_width floor is undercut by the collapse "
+    "(table_expand_exact_above_floors / _no_wrap); below a floor the code is too wide (the finding) and the bound is width_bound_general; "
     "`table_exact_collapsed` keeps its stability hypothesis, discharged for text-like cells by `table_exact_collapsed_textlike`; ratio (flexible) columns are covered by table_rect / rows / columns, by table_expand_exact's general form (hypotheses on the first-pass "
     "widths) and, for free columns with any non-negative ratios, by width_fits_any_ratio / table_expand_exact_any_ratio (flexNegative = flexClampZero = false), not by the `_free` corollaries; non-wrappable columns can exceed the available width below the structural minimum (ratio_reduce caps: "
     "`ratioReduce 50 [1,1] [100,1] [100,1] = [75,0]`; below_structural_minimum_overflows) - outside the statement.  Cells, title and caption are oracles (contract checked per "
